@@ -133,13 +133,13 @@ func TestVerifC18(t *testing.T) {
 							_ = tr
 							for _, netA := range netAnnos {
 								for _, reqA := range reqAnnos {
-									if netA != "" && reqA != "" && (netA != netAnnos[1] || reqA != reqAnnos[1]) {
-										continue // one representative of the conflicting pair
+									if !ev.Thorough() && netA != "" && reqA != "" && (netA != netAnnos[1] || reqA != reqAnnos[1]) {
+										continue // quick: one representative of the conflicting pair; thorough: every pair
 									}
 									for _, owner := range owners {
 										for _, variant := range []string{"plain", "hostnet", "ignored", "nocontainers", "two-containers", "podeni", "labelled", "pnanno"} {
-											if variant != "plain" && variant != "podeni" && variant != "labelled" && (owner != "" || netA == netAnnos[3]) && variant != "two-containers" {
-												continue
+											if !ev.Thorough() && variant != "plain" && variant != "podeni" && variant != "labelled" && (owner != "" || netA == netAnnos[3]) && variant != "two-containers" {
+												continue // quick thins the variant x owner product; thorough runs all of it
 											}
 											c18One(r, cl, cfg, zonesOf, netA, reqA, owner, variant, prevZone, eniCfg)
 										}
